@@ -213,18 +213,47 @@ pub struct RunOut {
     pub ended: bool,
 }
 
+/// Conversions of a `Framed` that must keep both buffers, applied after some frames were read.
+#[derive(Clone, Copy, Debug, PartialEq, Eq)]
+pub enum Conv {
+    IntoMapCodec,
+    ReplaceCodec,
+    IntoMapIo,
+    PartsRoundTrip,
+}
+pub const CONVS: [Conv; 4] = [Conv::IntoMapCodec, Conv::ReplaceCodec, Conv::IntoMapIo, Conv::PartsRoundTrip];
+
 fn drive<C: Subject>(codec: &C, script: &[Step]) -> Result<RunOut, String> {
+    drive_with(codec, script, &[], None)
+}
+
+/// `prebuf`: bytes that are already in the read buffer when the `Framed` is built
+/// (`FramedParts::with_read_buf` + `from_parts`); `conv`: a conversion applied once that many
+/// items have been produced.
+fn drive_with<C: Subject>(codec: &C, script: &[Step], prebuf: &[u8], conv: Option<(usize, Conv)>) -> Result<RunOut, String> {
     let io = ScriptRead { steps: script.iter().cloned().collect(), eof_reads: 0, pendings_without_wake: 0 };
     let n_pending = script.iter().filter(|s| **s == Step::Pending).count();
-    let total: usize = script.iter().map(|s| if let Step::Data(d) = s { d.len() } else { 0 }).sum();
-    let mut framed = Box::pin(Framed::new(io, codec.clone()));
+    let total: usize = script.iter().map(|s| if let Step::Data(d) = s { d.len() } else { 0 }).sum::<usize>() + prebuf.len();
+    let mut framed = if prebuf.is_empty() { Framed::new(io, codec.clone()) } else { Framed::from_parts(actix_codec::FramedParts::with_read_buf(io, codec.clone(), BytesMut::from(prebuf))) };
     let w = CountWaker::new(0);
     let waker = w.waker();
     let mut cx = Context::from_waker(&waker);
     let mut out = RunOut { items: vec![], pendings: 0, ended: false };
     let fuel = total * 2 + script.len() + n_pending + 16;
+    let mut converted = false;
     for _ in 0..fuel {
-        match framed.as_mut().poll_next(&mut cx) {
+        if let Some((after, kind)) = conv {
+            if !converted && out.items.len() == after {
+                converted = true;
+                framed = match kind {
+                    Conv::IntoMapCodec => framed.into_map_codec(|c| c),
+                    Conv::ReplaceCodec => framed.replace_codec(codec.clone()),
+                    Conv::IntoMapIo => framed.into_map_io(|io| io),
+                    Conv::PartsRoundTrip => Framed::from_parts(framed.into_parts()),
+                };
+            }
+        }
+        match Pin::new(&mut framed).poll_next(&mut cx) {
             Poll::Pending => {
                 out.pendings += 1;
                 if w.take() == 0 {
@@ -245,6 +274,44 @@ fn drive<C: Subject>(codec: &C, script: &[Step]) -> Result<RunOut, String> {
         return Err(format!("stream did not end within {fuel} polls ({} items so far)", out.items.len()));
     }
     Ok(out)
+}
+
+/// For one stream: bytes handed over in the read buffer instead of by reads (every split point),
+/// and every conversion after every number of frames - the frames must not change.
+fn check_variants<C: Subject>(codec: &C, data: &[u8], chunks: &[Step]) -> (u64, Option<Violation>) {
+    if !C::FRAMES_INDEPENDENT_OF_ARRIVAL {
+        return (0, None);
+    }
+    let want = reference(codec, data, true);
+    let mut runs = 0u64;
+    if chunks.len() <= 1 {
+        for k in 1..=data.len() {
+            runs += 1;
+            let rest: Vec<Step> = if k < data.len() { vec![Step::Data(data[k..].to_vec())] } else { vec![] };
+            let got = mcutil::quiet_catch(|| drive_with(codec, &rest, &data[..k], None));
+            if !matches!(&got, Ok(Ok(g)) if g.items == want) {
+                return (runs, Some(Violation {
+                    signature: format!("{}:frames-differ:bytes-handed-over-in-the-read-buffer", C::NAME),
+                    summary: format!("stream {:?}: first {k} byte(s) already in the read buffer (FramedParts::with_read_buf), the rest read: items {:?}, whole-buffer decoding gives {:?}", data, got.map(|r| r.map(|g| g.items)).map_err(|_| "panic"), want),
+                    replay: json!({"codec": C::NAME, "variant": "prebuffered", "data": data, "prebuffered": k}),
+                }));
+            }
+        }
+    }
+    for after in 0..=want.len() {
+        for kind in CONVS {
+            runs += 1;
+            let got = mcutil::quiet_catch(|| drive_with(codec, chunks, &[], Some((after, kind))));
+            if !matches!(&got, Ok(Ok(g)) if g.items == want) {
+                return (runs, Some(Violation {
+                    signature: format!("{}:frames-differ:after-a-conversion-of-the-framed", C::NAME),
+                    summary: format!("stream {:?} read as {:?}: {:?} applied after {after} frame(s): items {:?}, whole-buffer decoding gives {:?}", data, show_script(chunks), kind, got.map(|r| r.map(|g| g.items)).map_err(|_| "panic"), want),
+                    replay: json!({"codec": C::NAME, "variant": "conversion", "data": data, "script": show_script(chunks), "after": after, "conv": format!("{:?}", kind)}),
+                }));
+            }
+        }
+    }
+    (runs, None)
 }
 
 fn show_script(s: &[Step]) -> Value {
@@ -337,6 +404,7 @@ fn check<C: Subject>(codec: &C, script: &[Step]) -> Option<Violation> {
 }
 
 struct Stats {
+    variant_runs: u64,
     polls: u64,
     runs: u64,
     nontrivial: u64,
@@ -359,7 +427,7 @@ fn enumerate_small<C: Subject>(codec: &C, n: usize, max_pending: usize, threads:
         }
     }
     let parts = mcutil::par_map(threads, &work, |_, (len, first)| {
-        let mut st = Stats { polls: 0, runs: 0, nontrivial: 0, vios: vec![] };
+        let mut st = Stats { polls: 0, runs: 0, nontrivial: 0, variant_runs: 0, vios: vec![] };
         let comps = mcutil::compositions(*len);
         let free = if first.is_some() { len - 1 } else { 0 };
         mcutil::for_each_seq(base, free, |seq| {
@@ -375,6 +443,18 @@ fn enumerate_small<C: Subject>(codec: &C, n: usize, max_pending: usize, threads:
                 for c in comp {
                     chunks.push(Step::Data(data[off..off + c].to_vec()));
                     off += c;
+                }
+                if chunks.len() <= 2 {
+                    let (r, v) = check_variants(codec, &data, &chunks);
+                    st.runs += r;
+                    st.variant_runs += r;
+                    if let Some(v) = v {
+                        if !st.vios.iter().any(|x| x.signature == v.signature) {
+                            st.vios.push(v);
+                        } else {
+                            st.vios.push(Violation { replay: Value::Null, ..v });
+                        }
+                    }
                 }
                 let reads = chunks.len() + 1; // + the EOF read
                 // pending placements: subsets of read positions of size <= max_pending; error: none or one position
@@ -431,7 +511,9 @@ fn enumerate_small<C: Subject>(codec: &C, n: usize, max_pending: usize, threads:
     });
     let mut runs = 0;
     let mut nontrivial = 0;
+    let mut variant_runs = 0;
     for st in parts {
+        variant_runs += st.variant_runs;
         runs += st.runs;
         polls += st.polls;
         nontrivial += st.nontrivial;
@@ -444,6 +526,7 @@ fn enumerate_small<C: Subject>(codec: &C, n: usize, max_pending: usize, threads:
         }
     }
     rep.add("transitions", polls);
+    rep.add("runs_with_prebuffered_bytes_or_a_conversion", variant_runs);
     (runs, nontrivial)
 }
 
@@ -577,6 +660,17 @@ fn replay_one<C: Subject>(codec: &C, r: &Value, rep: &mut Report) {
     if let Some(l) = r.get("long") {
         println!("long-stream case {l}: re-run by the normal check (deterministic)");
         long_runs(codec, rep);
+        return;
+    }
+    if let Some(variant) = r.get("variant") {
+        let data: Vec<u8> = r["data"].as_array().unwrap().iter().map(|b| b.as_u64().unwrap() as u8).collect();
+        let chunks = if variant == "conversion" { script_from(&r["script"]) } else { vec![Step::Data(data.clone())] };
+        let (_, v) = check_variants(codec, &data, &chunks);
+        println!("replay verdict: {}", if v.is_some() { "violates" } else { "holds" });
+        if let Some(v) = v {
+            println!("{}", v.summary);
+            rep.violation(v);
+        }
         return;
     }
     let script = script_from(&r["script"]);
